@@ -84,7 +84,7 @@ def gen_hist(s, life=False):
         from ..lifegen import LifeGen
         # every third one names the same explicit mailbox id in both apps (on the unchanged tree that runs into the
         # known finding F8; what a tree does *instead* of failing is judged by the online oracles)
-        g = LifeGen(s, napps=2, two_apps=True, body_prefix="same", cross_app_mailboxes=(s % 3 == 0))
+        g = LifeGen(s, napps=2, two_apps=True, body_prefix="same", cross_app_mailboxes=(s % 3 == 0), jumps=(s % 5 == 2))
         h = g.gen()
         k = 0
         for st in h:
